@@ -26,6 +26,8 @@
 #include <tao/pegtl/contrib/input_with_depth.hpp>
 #include <tao/pegtl/contrib/limit_bytes.hpp>
 #include <tao/pegtl/contrib/limit_depth.hpp>
+#include <tao/pegtl/contrib/parse_tree.hpp>
+#include <map>
 
 namespace vt
 {
@@ -200,6 +202,13 @@ namespace vt
       bool described = false;
    };
 
+   // pegtl's own demangled name -> node id (parse tree nodes carry only that name)
+   inline std::map< std::string, int >& dn2id()
+   {
+      static std::map< std::string, int > m;
+      return m;
+   }
+
    inline std::vector< NodeInfo >& nodes()
    {
       static std::vector< NodeInfo > v( 1 );  // ids start at 1
@@ -302,6 +311,7 @@ namespace vt
          return;
       }
       nodes()[ std::size_t( id ) ].described = true;
+      dn2id()[ std::string( pegtl::demangle< Rule >() ) ] = id;
       if constexpr( !is_rule< Rule > ) {
          // a type that is only named by raise< T > or used as Control< T >::raise (limit_depth< N >, ...)
          Writer& w = g().tb;
@@ -1242,6 +1252,90 @@ namespace vt
                break;
          }
       }
+   }
+
+   // ------------------------------------------------------------------ parse tree (C12)
+   //
+   // selector by trait: a rule type may carry  static constexpr int sel = k
+   //   0 not selected, 1 store_content, 2 remove_content, 3 fold_one, 4 discard_empty
+   template< int K >
+   struct sel_kind : std::false_type
+   {};
+   template<>
+   struct sel_kind< 1 > : pegtl::parse_tree::store_content
+   {};
+   template<>
+   struct sel_kind< 2 > : pegtl::parse_tree::remove_content
+   {};
+   template<>
+   struct sel_kind< 3 > : pegtl::parse_tree::fold_one
+   {};
+   template<>
+   struct sel_kind< 4 > : pegtl::parse_tree::discard_empty
+   {};
+   template< typename Rule >
+   struct vsel : sel_kind< sel_of< Rule > >
+   {};
+   template< typename Rule >
+   using vsel_all = std::true_type;
+
+   inline void dump_tree( Writer& w, const pegtl::parse_tree::node& n, int depth, bool& first )
+   {
+      for( const auto& c : n.children ) {
+         if( !first )
+            w.s( "," );
+         first = false;
+         const auto it = dn2id().find( std::string( c->type ) );
+         w.s( "[" );
+         w.i( it == dn2id().end() ? 0 : it->second );
+         w.s( "," );
+         w.i( c->m_begin.data - g().base );
+         w.s( "," );
+         w.i( c->has_content() ? ( c->m_end.data - g().base ) : -1 );
+         w.s( "," );
+         w.i( c->has_content() ? 1 : 0 );
+         w.s( "," );
+         w.i( depth );
+         w.s( "]" );
+         dump_tree( w, *c, depth + 1, first );
+      }
+   }
+
+   // the same data once more through parse_tree::parse (plain normal<> control): logs the resulting tree
+   template< typename Rule, template< typename... > class Selector, template< typename... > class Action >
+   void run_tree_case( const std::string& data )
+   {
+      Global& G = g();
+      char* blk = static_cast< char* >( std::malloc( data.size() ? data.size() : 1 ) );
+      std::memcpy( blk, data.data(), data.size() );
+      G.base = blk;
+      const bool was = G.tracing;
+      G.tracing = false;
+      int x = 0;
+      std::unique_ptr< pegtl::parse_tree::node > root;
+      {
+         pegtl::memory_input< pegtl::tracking_mode::eager, pegtl::eol::lf_crlf, std::string > in( blk, blk + data.size(), "src" );
+         try {
+            root = pegtl::parse_tree::parse< Rule, Selector, Action >( in );
+         }
+         catch( ... ) {
+            x = classify_current_cls();
+         }
+      }
+      G.tracing = was;
+      Writer& w = G.tr;
+      w.s( "{\"k\":\"tree\"" );
+      w.kv( "null", root ? 0 : 1 );
+      w.kv( "x", x );
+      w.s( ",\"nodes\":[" );
+      if( root ) {
+         bool first = true;
+         dump_tree( w, *root, 0, first );
+      }
+      w.s( "]}\n" );
+      w.maybe_flush();
+      root.reset();
+      std::free( blk );
    }
 
    // ------------------------------------------------------------------ process-level safety net
